@@ -76,6 +76,7 @@ structure World where
   nodes : List Node := []
   seen : List Ctx := []
   recvs : List Nat := []        -- (ghost) the receiver each scripted method call found as `self`
+  spawns : List Nat := []       -- (ghost) the task group (`Ctx.other`) each `ctx.spawn` of a scripted function joined
 deriving DecidableEq, Repr
 
 /-- what a callable does: outcome, the context it leaves behind, the heap it leaves behind -/
@@ -158,6 +159,10 @@ def scripted (o : Outcome) (leak k : Nat) : Behaviour := fun _ c w =>
   let w1 : World := { w with seen := w.seen ++ [c] }
   (o, if leak = 0 then c else { c with state := some leak }, if k = 0 then w1 else record w1 c (.metric k))
 
+/-- a scripted function that also calls `ctx.spawn(child)`: the child joins the task group of the context the
+function runs in (`TaskGroupContext._context`, part of `Ctx.other`) -/
+def spawning (b : Behaviour) : Behaviour := fun a c w => b a c { w with spawns := w.spawns ++ [c.other] }
+
 /-- the call fails before the body runs (arguments do not fit the signature): `TypeError` from the interpreter -/
 def unbound (o : Outcome) : Behaviour := fun _ c w => (o, c, w)
 
@@ -183,14 +188,16 @@ def callSeq (call : Fn → Nat → Ctx → World → Outcome × Ctx × World) (m
     let rs := callSeq call m rest r.2.1 r.2.2
     (r.1 :: rs.1, rs.2.1, rs.2.2)
 
-/-- the call site: blocks entered around the call, outermost first: `(kind, v)`, kind 0 = `ctx.scope`,
-1 = `ctx.updated`; scope names are 100 + position -/
+/-- the call site: blocks entered around the call, outermost first: `(kind, v)`, kind 0 = `with ctx.scope`,
+1 = `ctx.updated`, 2 = `async with ctx.scope` (which also opens a task group: `other` := node id + 1);
+scope names are 100 + position -/
 def enterSite : List (Nat × Nat) → Nat → Ctx → World → Ctx × World
   | [], _, c, w => (c, w)
   | (kind, v) :: rest, pos, c, w =>
     let st := some (if v = 0 then c.state.getD 0 else v)
     if kind = 1 then enterSite rest (pos + 1) { c with state := st } w
-    else enterSite rest (pos + 1) { c with state := st, scope := some w.nodes.length }
+    else enterSite rest (pos + 1)
+      { state := st, scope := some w.nodes.length, other := if kind = 2 then w.nodes.length + 1 else c.other }
       { w with nodes := w.nodes ++ [{ name := 100 + pos, parent := c.scope }] }
 
 end Haiway.Wrap
